@@ -85,10 +85,27 @@ func c02Post(e *env.Env, cacheName string, uri string, bodies bool, hdr http.Hea
 	save := e.Respond
 	e.Respond = func(oc *env.OriginCall) env.OriginResp { return env.Cacheable(oc, 1, "epi") }
 	defer func() { e.Respond = save }()
-	for i := 0; i < 2; i++ {
-		r := e.Do(env.Req{URI: uri, Rid: fmt.Sprintf("epi%d", i), Header: hdr})
-		if r.Status != 200 {
-			return &vsched.Violation{Sig: "epilogue-not-served", Msg: fmt.Sprintf("request after the run answered %d %s", r.Status, trunc(r.Body))}
+	for i := 0; i < 5; i++ {
+		h := hdr
+		switch i {
+		case 2:
+			// a later epoch: whatever state the run left behind (hit, hit-for-pass marker) has lapsed by now
+			vtime.Add(3600)
+		case 3:
+			// a client that only wants a cached copy (RFC 7234 only-if-cached) on the key that has just lapsed again:
+			// whatever it is answered, the key must not be left without a fetcher
+			vtime.Add(3600)
+			h = http.Header{"Cache-Control": {"only-if-cached"}}
+			for k, v := range hdr {
+				h[k] = v
+			}
+		}
+		r := e.Do(env.Req{URI: uri, Rid: fmt.Sprintf("epi%d", i), Header: h})
+		if r.Blocked != "" {
+			return &vsched.Violation{Sig: "epilogue-request-blocks-forever", Msg: fmt.Sprintf("request %d after the run (clock +%d s) never completed: %s", i, vtime.Get()-vtime.Base, r.Blocked)}
+		}
+		if r.Status != 200 && i != 3 {
+			return &vsched.Violation{Sig: "epilogue-not-served", Msg: fmt.Sprintf("request %d after the run answered %d %s", i, r.Status, trunc(r.Body))}
 		}
 	}
 	an := analyze(e.Events())
@@ -138,6 +155,9 @@ func c02Scenario(c *Ctx, p c02Params) Sched {
 			var an *analysis
 			check := func(x *vsched.Exec) *vsched.Violation {
 				an = analyze(e.Events())
+				if x.Clock > vtime.Get() {
+					vtime.Set(x.Clock) // the epilogue continues at the clock the run ended with
+				}
 				if x.Deadlock || x.Livelock {
 					return nil
 				}
